@@ -145,26 +145,30 @@ def compare(cx, f):
         if "next_key_found" in gate and gate["next_key_found"] is False:
             continue
         act = leaf_action(lf)
-        # ts role
+        # ts role: the set of window positions this path is consistent with (a path that never branched on one of the two
+        # comparisons leaves that side open)
         if r.get("ts_some") is False:
-            tsv = ["none"]
+            ts_allowed = ["none"]
         elif "ts_some" not in r:
-            tsv = None
+            ts_allowed = list(ROLE_DOM["ts"])
         else:
+            al = {"in", "above", "below"}
             if r.get("ts_end") == "lt":
-                tsv = ["above"]
-            elif r.get("ts_start") == "gt":
-                tsv = ["below"]
-            elif "ts_end" in r and "ts_start" in r:
-                tsv = ["in"]
-            else:
-                tsv = None
+                al &= {"above"}
+            elif r.get("ts_end") in ("gt", "eq"):
+                al -= {"above"}
+            if r.get("ts_start") == "gt":
+                al &= {"below"}
+            elif r.get("ts_start") in ("lt", "eq"):
+                al -= {"below"}
+            ts_allowed = [x for x in ROLE_DOM["ts"] if x in al]
+        tsv = ts_allowed if len(ts_allowed) == 1 else None
         fixed = {k: v for k, v in r.items() if k in ROLE_DOM}
         if tsv and len(tsv) == 1:
             fixed["ts"] = tsv[0]
         free = [k for k in ROLE_DOM if k not in fixed]
         obs = lf.obs
-        for combo in itertools.product(*[ROLE_DOM[k] for k in free]):
+        for combo in itertools.product(*[(ts_allowed if k == "ts" else ROLE_DOM[k]) for k in free]):
             t = dict(fixed)
             t.update(zip(free, combo))
             if t["hd"] and t["rp"]:
